@@ -14,6 +14,9 @@ import (
 type AuthStep struct {
 	Method string `json:"m"`     // DESCRIBE ANNOUNCE SETUP OPTIONS GET_PARAMETER
 	Creds  string `json:"creds"` // none right wrong-pass wrong-user wrong-nonce wrong-realm wrong-uri other-method garbage
+	// Stale: when this is the first request of a connection, compute the credentials from the challenge an earlier
+	// connection received instead of asking for one first
+	Stale bool `json:"stale,omitempty"`
 }
 
 type AuthE2ECase struct {
@@ -27,6 +30,8 @@ type authE2EStats struct {
 	Challenged int
 	Accepted   int
 	Rejected   int
+	// credentials on the first request of a connection, computed from an earlier connection's challenge
+	StaleDigest, PreemptiveBasic int
 }
 
 func RunAuthE2E(c AuthE2ECase) error {
@@ -50,7 +55,7 @@ func runAuthE2E(c AuthE2ECase) (*authE2EStats, error) {
 	w.H.KeepMainStream = true
 
 	var r *rawClient
-	var challenge base.HeaderValue
+	var challenge, staleChallenge base.HeaderValue
 	defer func() {
 		if r != nil {
 			r.nc.Close()
@@ -76,8 +81,15 @@ func runAuthE2E(c AuthE2ECase) (*authE2EStats, error) {
 			req.Header["Transport"] = base.HeaderValue{"RTP/AVP/TCP;unicast;interleaved=0-1"}
 		}
 		creds := s.Creds
+		usingStale := false
 		if creds != "none" && challenge == nil {
-			creds = "none" // credentials can only be computed once the server has issued a challenge on this connection
+			if s.Stale && staleChallenge != nil {
+				// credentials on the first request of a connection, computed from the challenge an earlier connection got
+				// (pre-emptive Basic, or a Digest answer to a nonce this connection never issued)
+				challenge, usingStale = staleChallenge, true
+			} else {
+				creds = "none" // credentials can only be computed once the server has issued a challenge on this connection
+			}
 		}
 		if creds != "none" {
 			user, pass := c.User, c.Pass
@@ -117,8 +129,17 @@ func runAuthE2E(c AuthE2ECase) (*authE2EStats, error) {
 			if basic && (creds == "wrong-nonce" || creds == "wrong-realm" || creds == "wrong-uri" || creds == "other-method") {
 				creds = "right" // Basic credentials carry none of these: the request is a valid one
 			}
+			if usingStale && !basic && creds != "garbage" {
+				creds = "wrong-nonce" // whatever else is right about it, it answers a nonce this connection did not issue
+				st.StaleDigest++
+			} else if usingStale && basic {
+				st.PreemptiveBasic++
+			}
 		}
 		res, cerr, rerr := r.do(req)
+		if usingStale {
+			challenge = nil // this connection has still not issued a challenge of its own
+		}
 		if rerr != nil {
 			return st, fmt.Errorf("step %d (%s, credentials %s): %v", i, s.Method, creds, rerr)
 		}
@@ -137,6 +158,7 @@ func runAuthE2E(c AuthE2ECase) (*authE2EStats, error) {
 				return st, fmt.Errorf("step %d: the 401 carries %d challenges for %d enabled methods: %v", i, len(res.Header["WWW-Authenticate"]), len(c.Methods), res.Header["WWW-Authenticate"])
 			}
 			challenge = res.Header["WWW-Authenticate"]
+			staleChallenge = challenge
 			st.Challenged++
 		case "right":
 			if cerr != nil {
